@@ -214,6 +214,26 @@ Theorem C04_care_set_substitution_outputs : forall c sub imap omap fresh c' care
              Forall2 (Eval c (bool_assignment c x)) (outputs c) vs.
 Proof. exact care_set_replace_subcircuit_outputs. Qed.
 
+(* at the entry points: when also the replacement has accepted arities and no primary input is
+   removed (an input that is itself a replaced cone output would be), evaluate returns the same
+   result on every Boolean input vector and the truth table is the same, as results *)
+Theorem C04_care_set_substitution_truth_table : forall c sub imap omap fresh c' care,
+  Inv c -> Inv sub -> arity_ok c -> arity_ok sub ->
+  replace_subcircuit c sub imap omap fresh = Ok c' ->
+  check_step_map c sub imap omap care = true ->
+  match care with Some K => care_covers c (dkeys imap) K = true | None => True end ->
+  inputs c' = map (ren_all (imap ++ omap)) (inputs c) ->
+  (forall x, length x = length (inputs c) -> evaluate c' (map inj x) = evaluate c (map inj x)) /\
+  get_truth_table c' = get_truth_table c.
+Proof. exact care_set_replace_subcircuit_entry. Qed.
+
+Example C04_example_care_set_replacement_truth_table :
+  arity_ok c04_dc_sub /\
+  exists c', replace_subcircuit c04_dc_old c04_dc_sub c04_dc_imap c04_dc_omap "f" = Ok c' /\
+    inputs c' = map (ren_all (c04_dc_imap ++ c04_dc_omap)) (inputs c04_dc_old) /\
+    get_truth_table c' = Ok [[T; T; T; T]] /\ get_truth_table c04_dc_old = Ok [[T; T; T; T]].
+Proof. exact c04_dc_replace_entry. Qed.
+
 (* the step of the theorem: what the check gives per Boolean input vector is exactly the
    hypothesis of C19_replace_subcircuit_semantics *)
 Theorem C04_check_implies_equivalence : forall c sub imap omap fresh c' care,
